@@ -66,17 +66,38 @@ def run(tier, seed):
     samplewise("lazy_itertools.chain", lambda s: lit.chain(s, [1]))
     samplewise("lazy_itertools.takewhile", lambda s: lit.takewhile(lambda v: True, s))
     samplewise("lazy_itertools.accumulate", lambda s: lit.accumulate(s))
+    # a re-iterable container (not an iterator) as the source of a filter bank / cascade: every item is read once
+    class Box(object):
+        def __init__(self, data):
+            self.data, self.pulled = list(data), 0
+        def __iter__(self):
+            for v in self.data:
+                self.pulled += 1
+                yield v
+    for nm, mk in (("ParallelFilter(2 branches)", lambda: ParallelFilter(f1, f2)), ("ParallelFilter(3 branches)", lambda: ParallelFilter(f1, f2, f1 * f2)),
+                   ("CascadeFilter", lambda: CascadeFilter(f1, f2))):
+        for k in (1, 2, 5):
+            def box():
+                src = Box(range(1, 40))
+                out = mk()(src, zero=0)
+                if src.pulled:
+                    return False, "building %s read %d items" % (nm, src.pulled)
+                got = out.take(k)
+                return len(got) == k and src.pulled <= k + 1, "%s on a container: %d outputs read %d items" % (nm, k, src.pulled)
+            R.guard("filter-bank-on-a-container-reads-each-item-once", {"stage": nm, "outputs": k}, box)
     # resample: documented look-ahead rint((order+1)/2) samples; positions m*old/new
-    for order in (1, 2, 3):
-        for old, new in ((1, 1), (1, 2), (2, 1), (3, 2)):
+    for order in (1, 2, 3, 4, 5, 6):
+        for old, new in ((1, 1), (1, 2), (2, 1), (3, 2), (2, 3), (5, 7), (1, 4)):
             def rs():
                 src = Src(itertools.count(1))
                 out = iter(resample(src, old=old, new=new, order=order))
                 if src.pulled != 0:
                     return False, "building resample read %d items" % src.pulled
-                for k in range(6):
+                for k in range(14):
                     next(out)
-                    need = int(math.floor(k * F(old, new))) + order + 2
+                    t_ = k * F(old, new)
+                    # the order+1 neighbouring samples centred on the output instant (one more at an integer instant for odd orders)
+                    need = int(math.ceil(t_ - F(order + 1, 2))) + order + 1 + (1 if (t_.denominator == 1 and order % 2 == 1) else 0)
                     if src.pulled > need:
                         return False, "output %d (position %s) needed %d source items, allowed %d" % (k, k * F(old, new), src.pulled, need)
                 return True, ""
@@ -122,4 +143,4 @@ def run(tier, seed):
                     return False, "output %d needed %d source items, allowed (j-1)*hop+size = %d" % (k, src.pulled, need)
             return True, ""
         R.guard("stft-wrapper-reads-blockwise", {"size": size, "hop": hop}, st)
-    return R.result("every listed stage with an endless counting source: construction reads 0, first 6 outputs (3*size for block stages); resample orders 1..3 and 4 ratios; overlap-add / stft for 6 size/hop pairs")
+    return R.result("every listed stage with an endless counting source: construction reads 0, first 6 outputs (3*size for block stages); resample orders 1..6 and 7 ratios (reads within the centred window of order+1 samples); overlap-add / stft for 6 size/hop pairs")
